@@ -153,7 +153,8 @@ def main(argv=None):
             else:
                 extra_cov[key] = val
     if hasattr(check, 'enumerations'):
-        exh = {name: bool(e) for name, _g, e in check.enumerations(args.tier)}
+        exh = {name: bool(e) and ('enum-incomplete:' + name) not in tally.labels
+               for name, _g, e in check.enumerations(args.tier)}
         extra_cov['enumerations'] = exh
         if exh and all(exh.values()) and not gen_n:
             extra_cov['exhaustive'] = True
